@@ -67,7 +67,7 @@ Inductive cpc :=
 
 (* ghost log of the current run, newest first *)
 Inductive act :=
-| ALook (e : entry) (b : bool)   (* breakpoint lookup for entry e answered b *)
+| ALook (e : entry) (bs : list rule) (* breakpoint lookup for entry e; bs = the breakpoint set at that moment *)
 | ASend (ev : event)             (* event put into the channel = delivered *)
 | AWake                          (* park returned *)
 | ACont                          (* unpark by cont() *)
@@ -92,12 +92,14 @@ Record state := {
   chan : list event;      (* channel of the current run, oldest first *)
   log : list act;         (* ghost *)
   undisc : bool;          (* ghost: in this run a cont() unparked although no received breakpoint event was unanswered *)
-  out : list obs          (* controller observations, newest first *)
+  out : list obs;         (* controller observations, newest first *)
+  cur_es : list entry;    (* ghost: the entry list of the current run *)
+  cur_o : outcome         (* ghost: the outcome of the current run's plain parse *)
 }.
 
 Definition init (cs : list cmd) (b : list rule) : state :=
   {| cmds := cs; c_pc := CIdle; p_pc := PNone; handle := false; token := false; is_done := false;
-     bps := b; chan := []; log := []; undisc := false; out := [] |}.
+     bps := b; chan := []; log := []; undisc := false; out := []; cur_es := []; cur_o := OEof |}.
 
 Inductive tid := C | P.
 
@@ -117,28 +119,28 @@ Definition next_pc (es : list entry) (o : outcome) : ppc :=
 
 Definition set_c (s : state) (pc : cpc) : state :=
   {| cmds := cmds s; c_pc := pc; p_pc := p_pc s; handle := handle s; token := token s; is_done := is_done s;
-     bps := bps s; chan := chan s; log := log s; undisc := undisc s; out := out s |}.
+     bps := bps s; chan := chan s; log := log s; undisc := undisc s; out := out s; cur_es := cur_es s; cur_o := cur_o s |}.
 Definition set_p (s : state) (pc : ppc) : state :=
   {| cmds := cmds s; c_pc := c_pc s; p_pc := pc; handle := handle s; token := token s; is_done := is_done s;
-     bps := bps s; chan := chan s; log := log s; undisc := undisc s; out := out s |}.
+     bps := bps s; chan := chan s; log := log s; undisc := undisc s; out := out s; cur_es := cur_es s; cur_o := cur_o s |}.
 Definition add_log (s : state) (a : act) : state :=
   {| cmds := cmds s; c_pc := c_pc s; p_pc := p_pc s; handle := handle s; token := token s; is_done := is_done s;
-     bps := bps s; chan := chan s; log := a :: log s; undisc := undisc s; out := out s |}.
+     bps := bps s; chan := chan s; log := a :: log s; undisc := undisc s; out := out s; cur_es := cur_es s; cur_o := cur_o s |}.
 Definition add_out (s : state) (x : obs) : state :=
   {| cmds := cmds s; c_pc := c_pc s; p_pc := p_pc s; handle := handle s; token := token s; is_done := is_done s;
-     bps := bps s; chan := chan s; log := log s; undisc := undisc s; out := x :: out s |}.
+     bps := bps s; chan := chan s; log := log s; undisc := undisc s; out := x :: out s; cur_es := cur_es s; cur_o := cur_o s |}.
 Definition set_token (s : state) (b : bool) : state :=
   {| cmds := cmds s; c_pc := c_pc s; p_pc := p_pc s; handle := handle s; token := b; is_done := is_done s;
-     bps := bps s; chan := chan s; log := log s; undisc := undisc s; out := out s |}.
+     bps := bps s; chan := chan s; log := log s; undisc := undisc s; out := out s; cur_es := cur_es s; cur_o := cur_o s |}.
 Definition set_done (s : state) (b : bool) : state :=
   {| cmds := cmds s; c_pc := c_pc s; p_pc := p_pc s; handle := handle s; token := token s; is_done := b;
-     bps := bps s; chan := chan s; log := log s; undisc := undisc s; out := out s |}.
+     bps := bps s; chan := chan s; log := log s; undisc := undisc s; out := out s; cur_es := cur_es s; cur_o := cur_o s |}.
 Definition set_chan (s : state) (c : list event) : state :=
   {| cmds := cmds s; c_pc := c_pc s; p_pc := p_pc s; handle := handle s; token := token s; is_done := is_done s;
-     bps := bps s; chan := c; log := log s; undisc := undisc s; out := out s |}.
+     bps := bps s; chan := c; log := log s; undisc := undisc s; out := out s; cur_es := cur_es s; cur_o := cur_o s |}.
 Definition set_bps (s : state) (b : list rule) : state :=
   {| cmds := cmds s; c_pc := c_pc s; p_pc := p_pc s; handle := handle s; token := token s; is_done := is_done s;
-     bps := b; chan := chan s; log := log s; undisc := undisc s; out := out s |}.
+     bps := b; chan := chan s; log := log s; undisc := undisc s; out := out s; cur_es := cur_es s; cur_o := cur_o s |}.
 
 (* blocking send on the bounded channel: enabled iff there is room *)
 Definition send (cf : config) (s : state) (ev : event) : option state :=
@@ -156,7 +158,7 @@ Definition step_p (cf : config) (s : state) : option state :=
       else Some (set_p s (PLock e es o))
   | PLock e es o =>
       let b := mem (e_rule e) (bps s) in
-      Some (add_log (set_p s (if b then PSend e es o else next_pc es o)) (ALook e b))
+      Some (add_log (set_p s (if b then PSend e es o else next_pc es o)) (ALook e (bps s)))
   | PSend e es o =>
       match send cf s (EvBp (e_rule e) (e_pos e)) with
       | Some s' => Some (set_p s' (PPark es o))
@@ -177,18 +179,18 @@ Definition step_p (cf : config) (s : state) : option state :=
 (* ---- the controller: run(), cont(), breakpoint edits, recv ---- *)
 Definition pop_cmd (s : state) (cs : list cmd) : state :=
   {| cmds := cs; c_pc := c_pc s; p_pc := p_pc s; handle := handle s; token := token s; is_done := is_done s;
-     bps := bps s; chan := chan s; log := log s; undisc := undisc s; out := out s |}.
+     bps := bps s; chan := chan s; log := log s; undisc := undisc s; out := out s; cur_es := cur_es s; cur_o := cur_o s |}.
 Definition set_handle (s : state) (b : bool) : state :=
   {| cmds := cmds s; c_pc := c_pc s; p_pc := p_pc s; handle := b; token := token s; is_done := is_done s;
-     bps := bps s; chan := chan s; log := log s; undisc := undisc s; out := out s |}.
+     bps := bps s; chan := chan s; log := log s; undisc := undisc s; out := out s; cur_es := cur_es s; cur_o := cur_o s |}.
 Definition isnil {A} (l : list A) : bool := match l with [] => true | _ => false end.
 
 Definition spawn (s : state) (es : list entry) (o : outcome) : state :=
   {| cmds := cmds s; c_pc := CIdle; p_pc := PStart es o; handle := true; token := false; is_done := is_done s;
-     bps := bps s; chan := []; log := []; undisc := false; out := out s |}.
+     bps := bps s; chan := []; log := []; undisc := false; out := out s; cur_es := es; cur_o := o |}.
 Definition set_undisc (s : state) (b : bool) : state :=
   {| cmds := cmds s; c_pc := c_pc s; p_pc := p_pc s; handle := handle s; token := token s; is_done := is_done s;
-     bps := bps s; chan := chan s; log := log s; undisc := b; out := out s |}.
+     bps := bps s; chan := chan s; log := log s; undisc := b; out := out s; cur_es := cur_es s; cur_o := cur_o s |}.
 
 Definition step_c (cf : config) (s : state) : option state :=
   match c_pc s with
